@@ -7,7 +7,6 @@ import (
 	"context"
 	"fmt"
 	"net"
-	"os"
 	"strings"
 	"testing"
 	"time"
@@ -50,7 +49,6 @@ func TestC19Binary(t *testing.T) {
 	if len(addrs) == 0 {
 		t.Skip("no local addresses")
 	}
-	defer os.Remove(binPath)
 	idBase := 0
 	rapid.Check(t, func(rt *rapid.T) {
 		// a pool of its own per case: hosts of earlier cases would stay "active" for two minutes and crowd the
